@@ -147,7 +147,7 @@ def shallow_round_factory(tol):
   def around(iterable, tol):
     if isinstance(iterable, float): return round(iterable, tol)
     from klepto.tools import isiterable
-    if not isiterable(iterable): return iterable
+    if isinstance(iterable, (str, unicode)) or not isiterable(iterable): return iterable
     itype = type(iterable)
     _iterable = list(iterable)
     for i,j in enumerate(iterable):
